@@ -274,6 +274,7 @@ type TreeCfg struct {
 	LongNames       bool
 	BadUTF8         bool
 	SymTargets      []string // extra symlink targets
+	UncleanTargets  bool     // also spell some symlink targets uncleanly ("a/", "./a", "a//b", "../../"): target strings must survive verbatim
 	Caps            bool     // give some regular files a security.capability xattr (file capabilities)
 	SiblingSuffixes []string // suffixes for order-sensitive sibling names (nil = default set)
 }
@@ -450,6 +451,22 @@ func GenTree(t *rapid.T, cfg TreeCfg, label string) *Tree {
 			nd.Target = rapid.SampledFrom(tg).Draw(t, li+".target")
 			if nd.Target == "" {
 				nd.Target = "a"
+			}
+			if cfg.UncleanTargets && rapid.IntRange(0, 4).Draw(t, li+".unclean") == 0 {
+				switch rapid.IntRange(0, 5).Draw(t, li+".uncleanform") {
+				case 0:
+					nd.Target += "/"
+				case 1:
+					nd.Target = "./" + strings.TrimPrefix(nd.Target, "/")
+				case 2:
+					nd.Target = strings.Replace(nd.Target+"/x", "/", "//", 1)
+				case 3:
+					nd.Target += "/."
+				case 4:
+					nd.Target = "../../"
+				case 5:
+					nd.Target += "/../" + nd.Target
+				}
 			}
 		case KFifo:
 			if cfg.SpecialLinks && rapid.IntRange(0, 2).Draw(t, li+".isslink") == 0 {
